@@ -250,9 +250,11 @@ func RunKProg(k contract.KContext, self string, prog []KOp) (string, int, error)
 				return tr.String(), 0, err
 			}
 			n := 0
+			var listing []string
 			fmt.Fprintf(&tr, "sel %s[%s,%s):", b, op.K, op.End)
 			for (op.Limit == 0 || n < op.Limit) && it.Next() {
 				fmt.Fprintf(&tr, "%s=%q,", it.Key(), it.Value())
+				listing = append(listing, string(it.Key()))
 				n++
 			}
 			err = it.Error()
@@ -261,6 +263,13 @@ func RunKProg(k contract.KContext, self string, prog []KOp) (string, int, error)
 				return tr.String(), 0, err
 			}
 			tr.WriteString(";")
+			if op.V != "" {
+				// list-then-insert: what the scan yielded decides a write
+				if err := k.Put(b, []byte(op.V), []byte("keys:"+strings.Join(listing, ","))); err != nil {
+					return tr.String(), 0, err
+				}
+				fmt.Fprintf(&tr, "idx %s;", op.V)
+			}
 		case "fail":
 			return tr.String(), op.Status, nil
 		case "err":
